@@ -126,3 +126,15 @@ def gen_service(rng: random.Random, name: Optional[str] = None, type_: Optional[
     text = rng.choice([b"", b"\x03a=1", b"\x03a=2\x04path", b"\x00"])
     return Svc(type_, name, server, rng.choice([80, 8080, 65535, 1]), text, a4, a6, host_ttl, other_ttl,
                rng.choice([0, 0, 10]), rng.choice([0, 0, 5]))
+
+
+def last_seen_copy(cache: Any, probe: Any) -> Any:
+    """The cached copy of a record as last seen on the link.  An AAAA record heard on an IPv6 socket is cached with the scope
+    id of the receiving interface, so it is looked up by name and address (most recently received copy), not by the identity
+    that includes the scope."""
+    rec = cache.get(probe)
+    if rec is None and getattr(probe, "type", None) == 28:
+        for r in cache.get_all_by_details(probe.name, 28, 1):
+            if r.address == probe.address and (rec is None or r.created > rec.created):
+                rec = r
+    return rec
